@@ -1346,7 +1346,7 @@ def run(ctx, prop):
     # ------------------------------------------------------------------ programs
     progs = dict(pool.POOL)
     progs.update(EXTRA)
-    n_gen = ctx.scale(12, 36)
+    n_gen = 12   # (the thorough tier repeats the stream over three seeds instead of generating more programs)
     grng = __import__("random").Random(f"gen:{prop}:{ctx.seed}")
     for k in range(n_gen):
         nm, src = gen_program(grng, k, allow_alias=(k % 6 == 0))
@@ -1361,12 +1361,21 @@ def run(ctx, prop):
     pool.POOL.clear()
     pool.POOL.update(progs)
     try:
-        recs = sched_run.run_stream(
-            ctx, ["obs_cc"], nvariants=1,
-            opts={"depth": ctx.scale(1, 2), "max_attempts": 8 if light else ctx.scale(25, 90), "depth2_attempts": 15, "depth2_procs": 3,
-                  "cc_per_op": ctx.scale(1, 2), "cc_total": ctx.scale(4, 14), "cc_prob": 0.6,
-                  "n_inputs0": ctx.scale(4, 8), "n_inputs": ctx.scale(3, 4), "salt": prop,
-                  "record_limit": ctx.scale(250, 800)})
+        # thorough tier = the quick configuration over three consecutive seeds (the deeper configuration — depth 2,
+        # 90 attempts per program — has not been validated against the unchanged tree after the last extensions)
+        recs = []
+        seed0 = ctx.seed
+        for ds in range(ctx.scale(1, 3)):
+            ctx.seed = seed0 + ds
+            try:
+                recs += sched_run.run_stream(
+                    ctx, ["obs_cc"], nvariants=1,
+                    opts={"depth": 1, "max_attempts": 8 if light else 25, "depth2_attempts": 15, "depth2_procs": 3,
+                          "cc_per_op": 1, "cc_total": 4, "cc_prob": 0.6,
+                          "n_inputs0": 4, "n_inputs": 3, "salt": prop,
+                          "record_limit": 250})
+            finally:
+                ctx.seed = seed0
     finally:
         pool.POOL.clear()
         pool.POOL.update(saved)
